@@ -19,14 +19,24 @@ def run(ctx):
     from neuroglancer_scripts.chunk_encoding import CompressedSegmentationEncoder
     rng = ctx.rng
     reqs, meta = [], []
+    encoders = {}
     for _ in range(ctx.budget(250, 6000)):
         dt, bs, a, mode = csegen.gen_chunk(rng, big=ctx.tier == "thorough" or rng.random() < 0.05)
         C = a.shape[0]
         isz = np.dtype(dt).itemsize
         desc = {"dtype": dt, "shape": list(a.shape), "block_size": bs, "mode": mode}
-        enc = CompressedSegmentationEncoder(dt, C, list(bs))
+        # encoder objects are reused for all chunks with the same parameters (what PrecomputedIO does for a scale), and
+        # the array handed in must come back unchanged
+        ekey = (dt, C, tuple(bs))
+        if ekey not in encoders:
+            encoders[ekey] = CompressedSegmentationEncoder(dt, C, list(bs))
+        enc = encoders[ekey]
+        a_before = a.copy()
         try:
             buf = bytes(enc.encode(a))
+            if not np.array_equal(a, a_before):
+                ctx.oracle_fail("the encoder modified the chunk it was given", desc)
+                a = a_before
         except Exception as exc:  # noqa
             ctx.oracle_fail(f"encoder raised {type(exc).__name__}: {exc}", dict(desc, data=a.ravel().tolist()))
             continue
